@@ -473,6 +473,9 @@ func runSched(col *Collector, focus, tier string, seed int64) {
 			sharedNestedCase(col, focus, k%2 == 0)
 		}
 	}
+	if focus == "C01" || focus == "C02" || focus == "C03" {
+		sharedInclusionCases(col, focus, tier, seed)
+	}
 	if focus == "C02" {
 		for v := 0; v < 3; v++ {
 			sharedTaskHistoryCase(col, v)
